@@ -449,6 +449,9 @@ type scanLoop struct {
 	defaultKind string // what happens for every other terminal: token | error | skip | mixed
 	eofPending  bool   // an evaluation site exists on the end-of-input path (pending lexeme is not lost)
 	ok          bool
+	flagged     bool          // the scan function returns (token, isToken, error) and a driver loops over it
+	driver      *ssa.Function // the function looping over a flagged scan function (the public NextToken)
+	driverOK    bool
 }
 
 // wrapperOf: is callee a function of the same package that passes one of its int parameters as the state of the
@@ -480,6 +483,10 @@ func wrapperOf(callee *ssa.Function, evalObj types.Object) (int, *ssa.Call) {
 func analyseScanLoop(c *Ctx, rule string, fn *ssa.Function, advObj, evalObj types.Object, errorState int64) *scanLoop {
 	sl := &scanLoop{fn: fn}
 	pos := fn.Pos()
+	if fn.Signature.Results().Len() == 3 {
+		sl.flagged = true
+		checkSkipDriver(c, rule, sl)
+	}
 	var advs []*ssa.Call
 	allCalls(fn, func(call ssa.CallInstruction) {
 		if methodNameOf(call) == "Retract" {
@@ -647,6 +654,28 @@ func classifyAfterEval(c *Ctx, rule string, sl *scanLoop, st *evalSite) {
 		last := b.Instrs[len(b.Instrs)-1]
 		switch v := last.(type) {
 		case *ssa.Return:
+			if len(v.Results) == 3 {
+				// flagged protocol: (token, isToken, error); the driver calls again when !isToken && error == nil
+				if !isNilConst(v.Results[2]) {
+					return "error"
+				}
+				k, isK := v.Results[1].(*ssa.Const)
+				if !isK || k.Value == nil || k.Value.Kind() != constant.Bool {
+					return "other"
+				}
+				if constant.BoolVal(k.Value) {
+					for _, r := range rootsOf(fn, v.Results[0], func(x ssa.Value) bool { return x == ssa.Value(eval) }) {
+						if r == ssa.Value(eval) {
+							return "token"
+						}
+					}
+					return "other"
+				}
+				if sl.driverOK {
+					return "skip"
+				}
+				return "other"
+			}
 			if len(v.Results) != 2 {
 				return "other"
 			}
@@ -769,4 +798,111 @@ func constStringOf(k *ssa.Const) string {
 		return constant.StringVal(k.Value)
 	}
 	return k.Value.ExactString()
+}
+
+
+// checkSkipDriver: a scan function that returns (token, isToken, error) leaves skipping to its caller. The caller must call it
+// in a loop, return the token and the error exactly when isToken || error != nil, and otherwise call it again.
+func checkSkipDriver(c *Ctx, rule string, sl *scanLoop) {
+	fn := sl.fn
+	var drivers []*ssa.Function
+	var calls []*ssa.Call
+	for _, m := range fn.Pkg.Members {
+		_ = m
+	}
+	for _, cand := range allFuncsOfPkg(fn.Pkg) {
+		if cand == fn {
+			continue
+		}
+		allCalls(cand, func(call ssa.CallInstruction) {
+			if cv, ok := call.(*ssa.Call); ok && cv.Call.StaticCallee() == fn {
+				drivers = append(drivers, cand)
+				calls = append(calls, cv)
+			}
+		})
+	}
+	if !c.Check(rule, "scan loop: the flagged scan function has exactly one caller (the token loop)", fn.Pos(), len(drivers) == 1, fmt.Sprintf("%d call sites of the scan function", len(drivers))) {
+		return
+	}
+	d, call := drivers[0], calls[0]
+	sl.driver = d
+	var tok, flag, errv ssa.Value
+	for _, r := range *call.Referrers() {
+		if ex, ok := r.(*ssa.Extract); ok {
+			switch ex.Index {
+			case 0:
+				tok = ex
+			case 1:
+				flag = ex
+			case 2:
+				errv = ex
+			}
+		}
+	}
+	// the call is inside a loop
+	inLoop := reach(call.Block(), nil)[call.Block()]
+	// every return forwards (tok, err) and every edge into a return block is taken when isToken or when err != nil
+	okRets, nRet, why := true, 0, ""
+	for _, b := range d.Blocks {
+		ret, isRet := b.Instrs[len(b.Instrs)-1].(*ssa.Return)
+		if !isRet {
+			continue
+		}
+		nRet++
+		if len(ret.Results) != 2 || retOperand(ret, 0) != tok || retOperand(ret, 1) != errv {
+			okRets, why = false, "a return does not forward the scan function's token and error"
+			continue
+		}
+		for _, p := range b.Preds {
+			ifi, isIf := p.Instrs[len(p.Instrs)-1].(*ssa.If)
+			if !isIf {
+				okRets, why = false, "a return is reached unconditionally"
+				continue
+			}
+			onTrue := p.Succs[0] == b
+			good := false
+			if ifi.Cond == flag && onTrue {
+				good = true
+			}
+			if nn, isN := isNilCheck(ifi.Cond, errv); isN && nn == onTrue {
+				good = true
+			}
+			if !good {
+				okRets, why = false, "a return is taken under a condition other than isToken / err != nil"
+			}
+		}
+	}
+	// the remaining path (not a token, no error) goes back to the call
+	sl.driverOK = c.Check(rule, "scan loop: the token loop calls the scan function again exactly when it yielded no token and no error", call.Pos(),
+		tok != nil && flag != nil && errv != nil && inLoop && okRets && nRet >= 1,
+		fmt.Sprintf("in %s: in loop=%v, returns=%d %s", shortFn(d), inLoop, nRet, why))
+}
+
+func allFuncsOfPkg(p *ssa.Package) []*ssa.Function {
+	var out []*ssa.Function
+	for _, m := range p.Members {
+		switch x := m.(type) {
+		case *ssa.Function:
+			out = append(out, x)
+		case *ssa.Type:
+			for _, T := range []types.Type{x.Type(), types.NewPointer(x.Type())} {
+				ms := p.Prog.MethodSets.MethodSet(T)
+				for i := 0; i < ms.Len(); i++ {
+					if f := p.Prog.MethodValue(ms.At(i)); f != nil && f.Pkg == p {
+						out = append(out, f)
+					}
+				}
+			}
+		}
+	}
+	seen := map[*ssa.Function]bool{}
+	var uniq []*ssa.Function
+	for _, f := range out {
+		if !seen[f] {
+			seen[f] = true
+			uniq = append(uniq, f)
+		}
+	}
+	sort.Slice(uniq, func(i, j int) bool { return uniq[i].String() < uniq[j].String() })
+	return uniq
 }
